@@ -140,6 +140,11 @@ void log_peer_err(const struct peer *p, const char *fmt, ...)
 	char buffer[LOG_BUFFER_SIZE];
 	buffer[0] = '\0';
 	written = snprintf(buffer, LOG_BUFFER_SIZE, "%s: ", get_peer_name(p));
+	if (written < 0) {
+		written = 0;
+	} else if (written >= LOG_BUFFER_SIZE) {
+		written = LOG_BUFFER_SIZE - 1;
+	}
 	char *ptr = &buffer[written];
 	va_list ap;
 	va_start(ap, fmt);
@@ -155,6 +160,11 @@ void log_peer_info(const struct peer *p, const char *fmt, ...)
 	char buffer[LOG_BUFFER_SIZE];
 	buffer[0] = '\0';
 	written = snprintf(buffer, LOG_BUFFER_SIZE, "%s: ", get_peer_name(p));
+	if (written < 0) {
+		written = 0;
+	} else if (written >= LOG_BUFFER_SIZE) {
+		written = LOG_BUFFER_SIZE - 1;
+	}
 	char *ptr = &buffer[written];
 	va_list ap;
 	va_start(ap, fmt);
